@@ -426,30 +426,35 @@ static void run_c14s(void)
         for (state = 0; state < 4; ++state) {
             ParObj o; size_t la, lb; int cls; uint8_t in[300], out[300], out2[300], tw[300];
             const char *pfn = c == 0 ? "skinny128_parallel_ecb" : (c == 1 ? "skinny64_parallel_ecb" : "mantis_parallel_ecb");
+            int km, im;
+            /* Mantis: the direction the object was keyed in x the direction named by the invalid call */
+            for (km = 0; km < (c == CK_MANTIS ? 2 : 1); ++km) for (im = 0; im < (c == CK_MANTIS ? 2 : 1); ++im)
             for (cls = 0; cls < 9; ++cls) {
                 char d2[120];
-                snprintf(d2, sizeof(d2), "par %d %d %d %d", c, be, state, cls);
+                const int KM = km ? MANTIS_DECRYPT : MANTIS_ENCRYPT, IM = im ? MANTIS_DECRYPT : MANTIS_ENCRYPT;
+                if (c == CK_MANTIS) snprintf(d2, sizeof(d2), "par %d %d %d %d keyed-%s call-%s", c, be, state, cls, km ? "decrypt" : "encrypt", im ? "decrypt" : "encrypt");
+                else snprintf(d2, sizeof(d2), "par %d %d %d %d", c, be, state, cls);
                 snprintf(cd, sizeof(cd), "c14s %s", d2);
                 if (guard_enter("C14/parallel", cd)) continue;
                 ++g_cnt.evaluations; distinct_add_u64(fnv1a(cd, strlen(cd), 14));
                 arena_reset(); memset(&o, 0, sizeof(o));
                 lcg_fill(in, sizeof(in), 3); lcg_fill(tw, sizeof(tw), 4); memset(out, 0xEE, sizeof(out)); memset(out2, 0xEE, sizeof(out2));
                 if (state >= 1) par_init((Cipher)c, be, &o);
-                if (state >= 2) par_set_key((Cipher)c, &o, key, c == CK_MANTIS ? 16 : (unsigned)bs, 5, MANTIS_ENCRYPT);
+                if (state >= 2) par_set_key((Cipher)c, &o, key, c == CK_MANTIS ? 16 : (unsigned)bs, 5, KM);
                 if (state == 3) par_cleanup((Cipher)c, &o);
                 if (state == 2) par_crypt((Cipher)c, &o, out2, in, tw, (size_t)bs * 9, 0);
                 la = par_image((Cipher)c, &o, a, sizeof(a));
                 r = 0;
                 switch (cls) {
-                case 0: r = par_set_key((Cipher)c, NULL, key, c == CK_MANTIS ? 16 : (unsigned)bs, 5, MANTIS_ENCRYPT); break;
-                case 1: r = par_set_key((Cipher)c, &o, NULL, c == CK_MANTIS ? 16 : (unsigned)bs, 5, MANTIS_ENCRYPT); break;
-                case 2: r = par_set_key((Cipher)c, &o, flush_buf(key, 1), (unsigned)bs - 1, 5, MANTIS_ENCRYPT); break;
-                case 3: r = par_set_key((Cipher)c, &o, flush_buf(key, 1), c == CK_MANTIS ? 17 : 3u * (unsigned)bs + 1, 5, MANTIS_ENCRYPT); break;
+                case 0: r = par_set_key((Cipher)c, NULL, key, c == CK_MANTIS ? 16 : (unsigned)bs, 5, IM); break;
+                case 1: r = par_set_key((Cipher)c, &o, NULL, c == CK_MANTIS ? 16 : (unsigned)bs, 5, IM); break;
+                case 2: r = par_set_key((Cipher)c, &o, flush_buf(key, 1), (unsigned)bs - 1, 5, IM); break;
+                case 3: r = par_set_key((Cipher)c, &o, flush_buf(key, 1), c == CK_MANTIS ? 17 : 3u * (unsigned)bs + 1, 5, IM); break;
                 case 4: r = par_crypt((Cipher)c, NULL, out, in, tw, (size_t)bs, 0); break;
                 case 5: r = par_crypt((Cipher)c, &o, out, in, tw, 1, 0); break;
                 case 6: r = par_crypt((Cipher)c, &o, out, in, tw, (size_t)bs + 1, 1); break;
                 case 7: r = par_crypt((Cipher)c, &o, out, in, tw, (size_t)par_batch((Cipher)c, be) + 1, 0); break;
-                default: if (c == CK_MANTIS) r = par_set_key((Cipher)c, &o, key, 16, 9, MANTIS_ENCRYPT); else r = par_crypt((Cipher)c, &o, out, in, tw, (size_t)bs - 1, 0); break;
+                default: if (c == CK_MANTIS) r = par_set_key((Cipher)c, &o, key, 16, 9, IM); else r = par_crypt((Cipher)c, &o, out, in, tw, (size_t)bs - 1, 0); break;
                 }
                 lb = par_image((Cipher)c, &o, b, sizeof(b));
                 if (r != 0) { char fn[80]; snprintf(fn, sizeof(fn), "%s_%s", pfn, cls <= 3 || (cls == 8 && c == CK_MANTIS) ? "set_key" : "crypt"); c14_report(fn, "invalid-call-return", cd, "invalid call class %d on a %s object (%s) returned %d", cls, st[state], be_name(be), r); }
